@@ -58,7 +58,8 @@ def gen_jobs(rng, n):
                      "D": rng.choice([0, 400, 1000, 1000, 2500, 2999, 3001]), "C": rng.random() < 0.5,
                      "percall": rng.random() < 0.7, "exc": rng.random() < 0.2,
                      "ucancel": rng.choice([None, None, None, 700, 1000, 2000]),
-                     "SD": rng.choice([0, 0, 0, 1, 200, 700])})
+                     "SD": rng.choice([0, 0, 0, 1, 200, 700]), "CD": rng.choice([0, 0, 0, 0, 400, 900]),
+                     "resub": rng.random() < 0.2})
     return jobs
 
 
